@@ -112,6 +112,7 @@ type Exec struct {
 	beMemo    map[string]Term
 	divMemo   map[string][2]Term
 	nnVars    map[int]bool // solver constants known to be >= 0 on the current path
+	rawKeys   map[*Obj]Value // byte buffers holding a KeyCodec-encoded key (kept structural)
 	constMemo map[string]Term
 	addrHex   map[string][]Term
 	constAtoms map[string]int64
@@ -1105,6 +1106,31 @@ func fnKey(f *ssa.Function) string {
 
 func (ex *Exec) doCall(fr *frame, cc *ssa.CallCommon, args []Value) Value {
 	if cc.IsInvoke() {
+		if _, isOpaque := args[0].(VOpaque); isOpaque {
+			// an interface value produced by an intrinsic constructor (key codecs ...): only intrinsics apply
+			key := "invoke:" + cc.Value.Type().String() + "." + cc.Method.Name()
+			if in, ok := ex.intr[key]; ok {
+				return in(ex, fr, cc, args)
+			}
+			if o := args[0].(VOpaque); o.Kind == "codec" {
+				// key codecs: the encoded form of a key is the key itself, remembered per destination buffer
+				switch cc.Method.Name() {
+				case "Size":
+					return VInt{IntC(1)}
+				case "Encode":
+					buf, ok := args[1].(VSlice)
+					if !ok || buf.O == nil {
+						panic(unsupported{"KeyCodec.Encode into a nil buffer"})
+					}
+					if ex.rawKeys == nil {
+						ex.rawKeys = map[*Obj]Value{}
+					}
+					ex.rawKeys[buf.O] = args[2]
+					return VTuple{VInt{IntC(1)}, nilErr()}
+				}
+			}
+			panic(unsupported{"no intrinsic for " + key})
+		}
 		recv := args[0].(VIface)
 		if recv.Typ == nil {
 			panic(goPanic{"nil interface method call " + cc.Method.Name()})
